@@ -96,8 +96,8 @@ pub fn vis_str(v: &ast::Visibility) -> String {
 
 pub fn attr_str(a: &ast::Attribute) -> String {
     let s = pprust::attribute_to_string(a);
-    // whitespace-insensitive
-    s.split_whitespace().collect::<Vec<_>>().join(" ")
+    // whitespace-insensitive: compare the token sequence
+    crate::lex::code_tokens(&s).join(" ")
 }
 
 /// Items of a module in source order.
